@@ -89,6 +89,64 @@ def place_has_field(place, field):
     return False
 
 
+_DB = None     # set by report.Ctx: lets the field helpers look up ADT field types
+
+
+def _strip_ref(ty):
+    ty = ty.strip()
+    while True:
+        m = re.match(r"^&(?:'\w+ )?(?:mut )?(.*)$", ty)
+        if m:
+            ty = m.group(1).strip()
+            continue
+        m = re.match(r"^(?:alloc::boxed::Box|alloc::rc::Rc|alloc::sync::Arc)<(.*)>$", ty)
+        if m:
+            ty = m.group(1).split(",")[0].strip()
+            continue
+        return ty
+
+
+def field_owner(fn, place, field):
+    """Type of the struct whose `.field` the place goes through, following the projections from the root local's type
+    through the ADT facts.  None if it cannot be followed (unknown generic, enum payload, ...)."""
+    from .facts import strip_type_args
+    ty = _strip_ref(fn["locals"][place[0]][0])
+    for p in place[1]:
+        if p == "*":
+            ty = _strip_ref(ty)
+            continue
+        if p.startswith("."):
+            idx, _, name = p[1:].partition(":")
+            if name == field:
+                return ty
+            adt = _DB.adt(strip_type_args(ty)) if _DB is not None else None
+            if not adt or not adt.get("variants"):
+                return None
+            nxt = None
+            for v in adt["variants"]:
+                for f in v["fields"]:
+                    if f["n"] == name:
+                        nxt = f["ty"]
+            if nxt is None:
+                return None
+            ty = _strip_ref(nxt)
+            continue
+        if p.startswith("@"):
+            continue
+        return None
+    return None
+
+
+def _owner_ok(fn, place, field, r):
+    """base type filter: the owner of `.field` matches r — or, when the owner cannot be determined, the root local does."""
+    if r is None:
+        return True
+    own = field_owner(fn, place, field)
+    if own is not None:
+        return r.search(own) is not None
+    return r.search(fn["locals"][place[0]][0]) is not None
+
+
 def field_writes(fn, field, base_ty=None):
     """Direct assignments whose lhs goes through `.field` -> [(bb, idx, stmt)]."""
     out = []
@@ -98,12 +156,12 @@ def field_writes(fn, field, base_ty=None):
             continue
         for j, s in enumerate(b["s"]):
             if s[0] == "=" and place_has_field(s[1], field):
-                if r and not r.search(fn["locals"][s[1][0]][0]):
+                if not _owner_ok(fn, s[1], field, r):
                     continue
                 out.append((i, j, s))
         t = b["t"]
         if t[0] == "call" and place_has_field(t[3], field):
-            if r and not r.search(fn["locals"][t[3][0]][0]):
+            if not _owner_ok(fn, t[3], field, r):
                 continue
             out.append((i, "term", t))
     return out
@@ -119,7 +177,7 @@ def field_mut_borrows(fn, field, base_ty=None):
         for j, s in enumerate(b["s"]):
             if s[0] == "=" and s[2][0] in ("ref", "raw") and s[2][1] in ("mut", "Mut") \
                     and place_has_field(s[2][2], field):
-                if r and not r.search(fn["locals"][s[2][2][0]][0]):
+                if not _owner_ok(fn, s[2][2], field, r):
                     continue
                 out[s[1][0]] = (i, j)
     return out
